@@ -253,14 +253,21 @@ inline void sched_restart(const Opm::Schedule& sched, std::size_t step, const Op
     // well lists
     {
         const auto& wl = S.wlist_manager.get();
+        static const char* LN[] = {"*L1", "*L2", "*L3", "*A", "*B", "*C"};
+        // lists of a well = the lists it is a member of.  (WListManager::getWListNames() is the per-well SLOT table: a list the well
+        // was deleted from keeps its slot there - layout, not membership - so it is not used.)
         for (const auto& wn : sched.wellNames(step)) {
-            std::vector<std::string> l = wl.hasWList(wn) ? wl.getWListNames(wn) : std::vector<std::string>{};
-            std::sort(l.begin(), l.end()); std::string s; for (auto& x : l) s += x + ",";
+            std::string s;
+            for (const char* ln : LN) if (wl.hasList(ln)) { const auto ws = wl.getList(ln).wells(); if (std::find(ws.begin(), ws.end(), wn) != ws.end()) s += std::string(ln) + ","; }
             o.S("WL:" + wn, "wlist.of_well", s);
         }
-        for (const char* ln : {"*L1", "*L2", "*L3"}) {
-            if (!wl.hasList(ln)) { o.S(std::string("WLIST:") + ln, "wlist.members", "<none>"); continue; }
-            std::string s; for (auto& x : wl.getList(ln).wells()) s += x + ","; o.S(std::string("WLIST:") + ln, "wlist.members", s);
+        // members and order of every list; a list without members is reported separately: the file records lists per well, so
+        // "exists but empty" is a distinct question from "who is in it"
+        for (const char* ln : LN) {
+            std::string s; bool empty_exists = false;
+            if (wl.hasList(ln)) { const auto ws = wl.getList(ln).wells(); for (auto& x : ws) s += x + ","; empty_exists = ws.empty(); }
+            o.S(std::string("WLIST:") + ln, "wlist.members", s);
+            o.I(std::string("WLIST:") + ln + "/empty_list_exists", "wlist.empty_list_exists", empty_exists);
         }
     }
     // UDQ definitions
